@@ -307,6 +307,17 @@ def cases_for(tier, s):
         R.append({"recipe": {"b": "facet_plain", "cell": cell}, "seed": [s, 601, 0]})
         R.append({"recipe": {"b": "all_types", "cell": cell}, "seed": [s, 601, 1]} if cell != "prism" else
                  {"recipe": {"b": "dispatch", "cell": "prism", "p": {"seed": [s, 6, 999], "nint": 6, "types": ["exterior_facet", "vertex"], "arity": 2}}, "seed": [s, 601, 2]})
+    # the same integrand declared twice under one id (metadata differing only formally): it counts twice
+    k = 0
+    for how in ("explicit_equals_estimated", "scheme_default", "degree0_1", "three"):
+        for it, sid in (("cell", None), ("cell", 1), ("exterior_facet", 2), ("interior_facet", None)):
+            cell = ["triangle", "tetrahedron", "quadrilateral", "interval"][k % 4]
+            k += 1
+            if cell == "interval" and it != "cell":
+                cell = "triangle"
+            if tier == "quick" and k % 2:
+                continue
+            R.append({"recipe": {"b": "same_integrand_twice", "cell": cell, "p": {"how": how, "itype": it, "sid": sid}}, "seed": [s, 602, k]})
     return R
 
 
